@@ -83,7 +83,9 @@ def split_command_line(command_line):
     state_doublequote = 3
     # The state when consuming whitespace between commands.
     state_whitespace = 4
-    state = state_basic
+    # Start as if whitespace had just been consumed, so that leading
+    # whitespace does not produce an empty first argument.
+    state = state_whitespace
 
     for c in command_line:
         if state == state_basic or state == state_whitespace:
